@@ -350,6 +350,47 @@ func runC12(p *an.Prog, r *an.Run, tier string) {
 		r.Undec("stats-window", "store.Stats.CountNode", token.NoPos, "anchor not found")
 	}
 
+	// ---- stats-counters: the aggregate counts are sums over all records: every write of an integer counter of Stats in
+	// the shared counting helpers is an increment of that counter's previous value (an assignment for the `+=` leaves
+	// the count at 1 however many records there are); LatestBlockNumber is a maximum and is excluded
+	{
+		var cb []string
+		nC := 0
+		for _, name := range []string{"CountNode", "CountBalance"} {
+			fn := p.Method("pool/store", "Stats", name)
+			if fn == nil {
+				continue
+			}
+			an.AllInstrs(fn, func(in ssa.Instruction) {
+				st, ok := in.(*ssa.Store)
+				if !ok {
+					return
+				}
+				fv := an.FieldOf(st.Addr)
+				if fv == nil || !strings.HasPrefix(fv.Name(), "Num") {
+					return
+				}
+				if b, ok := fv.Type().Underlying().(*types.Basic); !ok || b.Info()&types.IsInteger == 0 {
+					return
+				}
+				nC++
+				okInc := false
+				if bo, ok := st.Val.(*ssa.BinOp); ok && bo.Op == token.ADD {
+					for _, side := range []ssa.Value{bo.X, bo.Y} {
+						if f2 := an.FieldOf(stripLoad(side)); f2 == fv {
+							okInc = true
+						}
+					}
+				}
+				if !okInc {
+					cb = append(cb, "Stats."+name+" writes "+fv.Name()+" at "+p.Pos(st.Pos())+" with a value that is not its previous value plus something: the count does not accumulate over the records")
+				}
+			})
+		}
+		r.Floor("stats-counter-writes", nC, 5)
+		r.Check(len(cb) == 0, "stats-counters", "store.Stats", token.NoPos, "every counter write is an increment", "%s", strings.Join(cb, "; "))
+	}
+
 	// ---- authorise: IsAccountNode answers nil exactly for a node that is linked AND linked to the given account: the
 	// successful return is reachable neither around the "link found" edge nor around the "stored account == argument"
 	// edge (a `&&` for the `||` of the refusal authorises every linked node for every account)
